@@ -35,7 +35,7 @@ class Scn:
 
     def __init__(self, w, n, policy='least-recently-stored', kinds=KINDS, statistics=False, sym_cfg=True,
                  min_file_size=2 ** 15, alive_sym=True, key_lo=None, key_hi=None, rows=None, cull_limit=None,
-                 expire_pos=True, tags=True, settings=None, keypool=None):
+                 expire_pos=True, tags=True, settings=None, keypool=None, value_bits=40):
         self.w = w
         self.n = n
         self.policy = policy
@@ -94,7 +94,7 @@ class Scn:
                 isfile = self.v_bool('r%d.isfile' % i)
             else:
                 isfile = B(z3.BoolVal('file' in kinds and 'int' not in kinds))
-            val = self.v_int('r%d.value' % i, -2 ** 40, 2 ** 40)
+            val = self.v_int('r%d.value' % i, -2 ** value_bits, 2 ** value_bits - (1 if value_bits >= 63 else 0))
             size = self.v_int('r%d.size' % i, 0, 2 ** 40)
             rv.update(isfile=isfile, value=val, size=size)
             fz = sx._fold(isfile.z)
